@@ -21,6 +21,15 @@ TEXT = {
  "C18": {"technique": "Lean 4 proof (bytes_len = encoded length, sums over parts) + count comparison",
          "text": "Theorems: |encode c| = 12 + |data|, bytes_len c = |encode c|, Σ bytes_len = |concatenated encodings|. Tie: family chunk compares returned counts, bytes_len and length() with bytes actually written.",
          "note": _TB},
+ "C07": {"technique": "Lean 4 proof (no read path of the model reaches a panic outcome; all model functions total) + hostile-input differential run",
+         "text": "Theorems: chunk parsers, chunk iterators, AHED/FHED/SHED/time/fPRM/xATR decoders, normal/solid entry parsers and both archive readers (any carry buffer) never produce the model's `panic` outcome, for every input; termination is by construction (structural recursion / fuel proved sufficient). Every partial Rust operation on these paths is a `panic` branch in the model or an error the fix: commits introduced. Tie: grammar-generated CRC-valid hostile streams, mutations, truncations and damaged chunk lists through the real readers under catch_unwind, compared with the model. Floor: framing/parsing layer; reader pipelines (cipher/KDF/FlattenReader depth) and CLI commands are added as built.",
+         "note": _TB + " KDF cost parameters, decompression bombs and CLI read commands are outside this floor (DESIGN §7/C07)."},
+ "C09": {"technique": "Lean 4 proof (sanitiser output has only Normal components, no root; idempotent) + constructor correspondence",
+         "text": "Part 1 of the property: for EVERY byte string, sanitize yields a relative path whose components are non-empty, not '.', not '..' and slash-free, and sanitize∘sanitize = sanitize; the FHED parser returns exactly sanitize(payload name). Tie: all EntryName constructors and the FHED parser vs the model on generated strings (roots, dot-dot, repeated slashes, unicode). Part 2 (file-system effects of extraction through stored links) is not yet claimed at this commit.",
+         "note": _TB + " std::path::Path::components (unix) is re-modelled (split on '/', drop empty and '.') and cross-checked; Windows prefixes out of scope."},
+ "C15": {"technique": "Lean 4 proof (dec∘enc = id per codec under explicit decidable domain predicates) + hook-level correspondence",
+         "text": "Theorems: AHED, FHED, SHED (both directions), timestamps (both directions), fSIZ (minimal BE u128), xATR, fPRM round trips; chunk-type private-bit characterisation; the one non-inverse corner (fPRM names > 255 bytes) is proved as such and recorded as known finding C15-fprm-name-over-255. Tie: every codec driven through cfg(pna_verif) wrappers on generated and hostile payloads. CLI text codecs (ACE, xattr values, part names, chmod) are added as built.",
+         "note": _TB},
 }
 
 _PENDING = "not yet claimed at this commit: model/theorems for this property are still being built (see DESIGN.md §11 for the order of work); no other technique is substituted"
